@@ -107,7 +107,7 @@ def kind_of_value(v):
 
 
 class World:
-    def __init__(self):
+    def __init__(self, same_names=False):
         import sym_metanet as sm
         from sym_metanet import engines
         from sym_metanet.engines.casadi import Engine as CE
@@ -115,13 +115,15 @@ class World:
         self.sm, self.engines, self.CE, self.NE = sm, engines, CE, NE
         lk = lambda i: (LINKP[i]["N"], LINKP[i]["lam"], LINKP[i]["L"], LINKP[i]["rho_max"], LINKP[i]["rho_crit"],  # noqa: E731
                         LINKP[i]["v_free"], LINKP[i]["a"])
+        # names are labels, not identifiers: with same_names every element of a kind carries the same one
+        nm = (lambda i: {"L": "link", "O": "origin", "R": "origin", "D": "destination"}[i[0]]) if same_names else (lambda i: i)
         self.el = {
-            "L1": sm.Link(*lk("L1"), turnrate=1.0, name="L1"),
-            "L2": sm.LinkWithVsl(*lk("L2"), turnrate=1.0, name="L2", segments_with_vsl={0}, alpha=0.1),
-            "L3": sm.Link(*lk("L3"), turnrate=2.0, name="L3"),
-            "O1": sm.MainstreamOrigin(name="O1"), "R1": sm.MeteredOnRamp(2000.0, "out", name="R1"),
-            "R2": sm.SimplifiedMeteredOnRamp(1500.0, "limited", name="R2"), "D0": sm.Destination(name="D0"),
-            "D1": sm.CongestedDestination(name="D1"),
+            "L1": sm.Link(*lk("L1"), turnrate=1.0, name=nm("L1")),
+            "L2": sm.LinkWithVsl(*lk("L2"), turnrate=1.0, name=nm("L2"), segments_with_vsl={0}, alpha=0.1),
+            "L3": sm.Link(*lk("L3"), turnrate=2.0, name=nm("L3")),
+            "O1": sm.MainstreamOrigin(name=nm("O1")), "R1": sm.MeteredOnRamp(2000.0, "out", name=nm("R1")),
+            "R2": sm.SimplifiedMeteredOnRamp(1500.0, "limited", name=nm("R2")), "D0": sm.Destination(name=nm("D0")),
+            "D1": sm.CongestedDestination(name=nm("D1")),
         }
         self.nodes = [sm.Node(name=f"N{i}") for i in (1, 2, 3)]
         n1, n2, n3 = self.nodes
@@ -319,7 +321,7 @@ def dyn_record(w: World, t: dict, sym: str):
     if w.dst == "D1":
         byname["d_D1"] = V["D1"]["d"]
     F = w.F
-    fn = {"sym": sym.upper(), "compact": 0, "more_out": False, "params": [], "ok": False, "err": "", "free": 0,
+    fn = {"sym": sym.upper(), "compact": 0, "more_out": False, "params": [], "ok": False, "err": "", "free": 0, "check_names": True, "pre": "none",
           "name_in": list(F.name_in()), "name_out": list(F.name_out()),
           "size_in": [int(F.size1_in(i) * F.size2_in(i)) for i in range(F.n_in())],
           "size_out": [int(F.size1_out(i) * F.size2_out(i)) for i in range(F.n_out())], "calls": []}
@@ -343,9 +345,9 @@ def dyn_record(w: World, t: dict, sym: str):
                     "twin": {"has": False}, "spy": []}}
 
 
-def replay_transition(t: dict) -> dict:
+def replay_transition(t: dict, same_names: bool = False) -> dict:
     out = {"c12": [], "c13": [], "c19": [], "crash": [], "drift": [], "dyn": None}
-    w = World()
+    w = World(same_names)
     last = None
     hist = t["h"]
     for idx, c in enumerate(hist):
@@ -413,7 +415,7 @@ def replay_transition(t: dict) -> dict:
             nfree = -1
         if nfree != 0:
             out["c19"].append(["function has free symbols", nfree])
-        if exp[1]:
+        if exp[1] and not same_names:
             out["dyn"] = dyn_record(w, t, c[1])
     # ---- C12: repeatability of every NumPy step from caller values made along this history
     for la, r, vals, par, opts, got, dst in w.repeat:
